@@ -120,17 +120,26 @@ impl Arbiter {
 
         let (ready_tx, ready_rx) = std::sync::mpsc::channel::<()>();
 
+        #[cfg(actix_net_verif)]
+        crate::verif::point(crate::verif::Point::Creating(arb_id));
+
         let thread_handle = thread::Builder::new()
             .name(name.clone())
             .spawn({
                 let tx = tx.clone();
                 move || {
+                    #[cfg(actix_net_verif)]
+                    crate::verif::point(crate::verif::Point::ThreadStart(arb_id));
+
                     let rt = crate::runtime::Runtime::from(runtime_factory());
                     let hnd = ArbiterHandle::new(tx);
 
                     System::set_current(sys);
 
                     HANDLE.with(|cell| *cell.borrow_mut() = Some(hnd.clone()));
+
+                    #[cfg(actix_net_verif)]
+                    crate::verif::point(crate::verif::Point::BeforeRegister(arb_id));
 
                     // register arbiter
                     let _ = System::current()
@@ -139,16 +148,28 @@ impl Arbiter {
 
                     ready_tx.send(()).unwrap();
 
+                    #[cfg(actix_net_verif)]
+                    crate::verif::point(crate::verif::Point::ReadySent(arb_id));
+
                     // run arbiter event processing loop
                     rt.block_on(ArbiterRunner { rx });
+
+                    #[cfg(actix_net_verif)]
+                    crate::verif::point(crate::verif::Point::BeforeDeregister(arb_id));
 
                     // deregister arbiter
                     let _ = System::current()
                         .tx()
                         .send(SystemCommand::DeregisterArbiter(arb_id));
+
+                    #[cfg(actix_net_verif)]
+                    crate::verif::point(crate::verif::Point::ThreadEnd(arb_id));
                 }
             })
             .unwrap_or_else(|err| panic!("Cannot spawn Arbiter's thread: {name:?}: {err:?}"));
+
+        #[cfg(actix_net_verif)]
+        crate::verif::point(crate::verif::Point::WaitReady(arb_id));
 
         ready_rx.recv().unwrap();
 
@@ -298,6 +319,9 @@ impl Future for ArbiterRunner {
     fn poll(mut self: Pin<&mut Self>, cx: &mut Context<'_>) -> Poll<Self::Output> {
         // process all items currently buffered in channel
         loop {
+            #[cfg(actix_net_verif)]
+            crate::verif::point(crate::verif::Point::RunnerItem);
+
             match ready!(self.rx.poll_recv(cx)) {
                 // channel closed; no more messages can be received
                 None => return Poll::Ready(()),
